@@ -228,6 +228,22 @@ def check_channel_file(hist, specs, t, seed, scalers_expected=None, opaque=False
                 if rr[0] != 'ok' or H.norm_array(rr[1])[1:] != H.norm_array(expw)[1:]:
                     probs.append(('window', 'read_data(%d,%d) differs from the slice of the scaled data' % (off, ln)))
                     break
+        # results the caller keeps must not change when further windows of the same length are read (lazy and eager)
+        for who, c_ in (('lazy', lch), ('eager', ech)):
+            kept = []
+            for off in range(0, max(L - 1, 0), 2):
+                rr = H.guarded(lambda: c_.read_data(off, 2))
+                n += 1
+                if rr[0] == 'ok':
+                    kept.append((off, rr[1], H.norm_array(rr[1])))
+            kept += [(None, c[:], H.norm_array(c[:])) for c in (lch.data_chunks() if who == 'lazy' else [])]
+            for off, arr, n0 in kept:
+                if H.norm_array(arr) != n0:
+                    probs.append(('kept-result-changed', '%s: a window read earlier (offset %r) changed after later reads of the same length' % (who, off)))
+                    break
+                if off is not None and H.norm_array(arr)[1:] != H.norm_array(full[off:off + 2])[1:]:
+                    probs.append(('window', '%s: read_data(%d,2) differs from the slice of the scaled data' % (who, off)))
+                    break
         parts = []
         for c in lch.data_chunks():
             a1 = H.guarded(lambda: H.norm_array(c[:]))
